@@ -118,3 +118,58 @@ example : utf8Valid [0xED, 0xA0, 0x80] = false := by decide         -- surrogate
 example : utf8Valid [0xF4, 0x90, 0x80, 0x80] = false := by decide   -- above U+10FFFF
 
 end Fcp
+
+namespace Fcp
+
+/-! ## every text has valid bytes: the UTF-8 encoding of a list of Unicode scalar values -/
+
+/-- Unicode scalar values: code points without the surrogates -/
+def isScalar (c : Nat) : Bool := c < 0xD800 || (0xE000 ≤ c && c < 0x110000)
+
+/-- the UTF-8 bytes of one code point -/
+def utf8Enc (c : Nat) : List Nat :=
+  if c < 0x80 then [c]
+  else if c < 0x800 then [0xC0 + c / 64, 0x80 + c % 64]
+  else if c < 0x10000 then [0xE0 + c / 4096, 0x80 + c / 64 % 64, 0x80 + c % 64]
+  else [0xF0 + c / 262144, 0x80 + c / 4096 % 64, 0x80 + c / 64 % 64, 0x80 + c % 64]
+
+/-- what `str.encode("utf-8")` yields for a text given as its scalar values -/
+def utf8Bytes (cs : List Nat) : List Nat := cs.flatMap utf8Enc
+
+theorem utf8Enc_valid (c : Nat) (h : isScalar c = true) : utf8Valid (utf8Enc c) = true := by
+  simp only [isScalar, Bool.or_eq_true, Bool.and_eq_true, decide_eq_true_eq] at h
+  unfold utf8Valid utf8Enc
+  by_cases h1 : c < 0x80
+  · simp [h1, utf8Go]
+  · by_cases h2 : c < 0x800
+    · have a1 : ¬ (0xC0 + c / 64 < 0x80) := by omega
+      have a2 : 0xC2 ≤ 0xC0 + c / 64 ∧ 0xC0 + c / 64 ≤ 0xDF := by omega
+      simp only [h1, h2, if_false, if_true, utf8Go, a1, a2.1, a2.2, decide_true, Bool.and_self, Bool.and_true,
+        beq_self_eq_true, Bool.and_eq_true, decide_eq_true_eq]
+      omega
+    · by_cases h3 : c < 0x10000
+      · simp only [h1, h2, h3, if_false, if_true]
+        -- the lead byte is one of 0xE0 .. 0xEF; each has its own bounds for the second byte
+        have hq : c / 4096 = 0 ∨ c / 4096 = 1 ∨ c / 4096 = 2 ∨ c / 4096 = 3 ∨ c / 4096 = 4 ∨ c / 4096 = 5 ∨
+            c / 4096 = 6 ∨ c / 4096 = 7 ∨ c / 4096 = 8 ∨ c / 4096 = 9 ∨ c / 4096 = 10 ∨ c / 4096 = 11 ∨
+            c / 4096 = 12 ∨ c / 4096 = 13 ∨ c / 4096 = 14 ∨ c / 4096 = 15 := by omega
+        rcases hq with q | q | q | q | q | q | q | q | q | q | q | q | q | q | q | q <;>
+          (rw [q]; simp [utf8Go]; omega)
+      · simp only [h1, h2, h3, if_false]
+        have hq : c / 262144 = 0 ∨ c / 262144 = 1 ∨ c / 262144 = 2 ∨ c / 262144 = 3 ∨ c / 262144 = 4 := by omega
+        rcases hq with q | q | q | q | q <;>
+          (rw [q]; simp [utf8Go]; omega)
+
+/-- **every text is in the codec's domain**: the UTF-8 bytes of any list of scalar values are valid -/
+theorem utf8Bytes_valid (cs : List Nat) (h : cs.all isScalar = true) : utf8Valid (utf8Bytes cs) = true := by
+  induction cs with
+  | nil => rfl
+  | cons c cs ih =>
+    simp only [List.all_cons, Bool.and_eq_true] at h
+    simp only [utf8Bytes, List.flatMap_cons]
+    exact utf8Valid_append _ _ (utf8Enc_valid c h.1) (ih h.2)
+
+example : utf8Bytes [0xB0, 0x43] = [0xC2, 0xB0, 0x43] := by decide
+example : utf8Bytes [0x1F600] = [0xF0, 0x9F, 0x98, 0x80] := by decide
+
+end Fcp
